@@ -199,6 +199,24 @@ class Gen:
             cur = n
         return cur
 
+    def t_xovr(self):
+        """export override: the simulated value is the first operand, the second (different logic) is what the
+        exported design would use; post-processing must keep simulating the first (not used by the VHDL checks)"""
+        w = self.r.choice([1, 2, 2])
+        a = self.expr(w)
+        b = self.expr(w)
+        n = self.fresh("x")
+        self.emit(f"xovr {n} {a} {b}")
+        self.vars[n] = ('u', w)
+        if self.r.random() < 0.4:
+            self.emit(f"name {n} n_{n}")
+        if self.r.random() < 0.5:
+            o = self.fresh("t")
+            self.emit(f"bin {o} {self.r.choice(['and', 'or', 'xor', 'add'])} {n} {self.get_u(w)}")
+            self.vars[o] = ('u', w)
+            return o
+        return n
+
     def t_cmpconst(self):
         """comparisons against constants (removeIrrelevantComparisons, ensureNoLiteralComparison): 1-bit
         operands compared with '0' / '1' / X, both operand orders, == and !=, used as condition and as data"""
@@ -464,8 +482,9 @@ class Gen:
 TEMPLATES = ["t_ifchain", "t_muxchain", "t_muxmerge", "t_noop", "t_reg", "t_holdloop", "t_constfold", "t_regconst", "t_rewire", "t_cmpconst", "expr", "expr"]
 
 
-def gen_design(seed, did, decorate=None):
-    """returns (list of statement lines, list of template names used)"""
+def gen_design(seed, did, decorate=None, extra_templates=()):
+    """returns (list of statement lines, list of template names used); extra_templates: names of
+    templates only some checks can use (t_xovr: simulation-only meaning)"""
     rng = random.Random(seed)
     g = Gen(rng)
     used = []
@@ -487,7 +506,7 @@ def gen_design(seed, did, decorate=None):
         if not area_open and rng.random() < 0.2:
             g.emit(f"area ar{i} {'entity' if rng.random() < 0.5 else ''}".strip())
             area_open = True
-        t = rng.choice(TEMPLATES)
+        t = rng.choice(TEMPLATES + list(extra_templates))
         used.append(t)
         if t == "expr":
             v = g.expr(rng.choice([1, 2, 2, 3, 0] if rng.random() < 0.1 else [1, 2, 2, 3]))
@@ -524,7 +543,7 @@ def write_programs(path, designs):
 # ---------------------------------------------------------------------------
 # decorations (property C11): behaviour-neutral rewrites of a design program
 # ---------------------------------------------------------------------------
-DEF_OPS = {"lit", "not", "bin", "slice", "bit", "zext", "oext", "sext", "mux", "var", "reg"}
+DEF_OPS = {"lit", "not", "bin", "slice", "bit", "zext", "oext", "sext", "mux", "var", "reg", "xovr"}
 MUT_OPS = {"set", "setslice", "setbit", "close", "loopvar"}
 
 
